@@ -152,10 +152,23 @@ Definition validate (sp : domspec) (args : list argshape) : verdict :=
            if forallb (fun b => b) flags then VCall else VShape flags
   end.
 
-(* the decorated callable *)
-Definition wrap {V : Type} (sp : domspec) (shape_of : V -> argshape) (f : list V -> outcome V) (args : list V) : outcome V :=
+(* the shape expected at each position of a call with n arguments *)
+Definition expected_shapes (sp : domspec) (n : nat) : list shape :=
+  match ds_min sp with Some _ => repeat (hd ShScalar (ds_shapes sp)) n | None => ds_shapes sp end.
+
+(* the values the validators return: number_validator turns a number-like (one-element) array into the number it
+   holds (item = obj.item(), the identity on numbers); the shape validators return their argument *)
+Fixpoint coerce {V : Type} (item : V -> V) (ss : list shape) (args : list V) : list V :=
+  match ss, args with
+  | s :: ss', a :: args' => match s with ShScalar => item a | _ => a end :: coerce item ss' args'
+  | _, _ => []
+  end.
+
+(* the decorated callable: the function is called on the validated values *)
+Definition wrap {V : Type} (sp : domspec) (shape_of : V -> argshape) (item : V -> V) (f : list V -> outcome V)
+           (args : list V) : outcome V :=
   match validate sp (map shape_of args) with
-  | VCall => f args
+  | VCall => f (coerce item (expected_shapes sp (List.length args)) args)
   | VArity _ _ _ => Raise XArgumentError
   | VShape _ => Raise XArgumentShapeError
   end.
@@ -191,9 +204,9 @@ Definition eval_function_handlers : handlers :=
 
 (* a call of a table entry through the evaluator *)
 Definition call_entry {V : Type} (hs : handlers) (arity_exc : pyexc) (e : fentry) (shape_of : V -> argshape)
-           (nargs : nat) (raw : list V -> outcome V) (args : list V) : outcome V :=
+           (item : V -> V) (nargs : nat) (raw : list V -> outcome V) (args : list V) : outcome V :=
   match fe_spec e with
-  | Some sp => eval_function hs arity_exc true 0 (wrap sp shape_of raw) args
+  | Some sp => eval_function hs arity_exc true 0 (wrap sp shape_of item raw) args
   | None => eval_function hs arity_exc false nargs raw args
   end.
 
